@@ -370,6 +370,72 @@ func script(seed int64, idx int) {
 			vlib.CCount("reobservation_requests", 1)
 			vlib.CCount("reorg_right_after_receipt_answer", 1)
 			vlib.CCount("reorgs", 1)
+		case x == 15 && !allowFaults && rng.Intn(2) == 0: // a new message arrives just as the head loop finds nothing left to confirm (the watcher pauses at its log lines)
+			h.SetLogDelay(0.6, 6*time.Millisecond, "processed new header")
+			for rep := 0; rep < 3; rep++ {
+				var txA, txB *evmsim.Tx
+				var blkA, blkB *evmsim.Block
+				sim.Mutate("mine-A", func(s *evmsim.Sim) {
+					var hb [32]byte
+					rng.Read(hb[:])
+					txA = &evmsim.Tx{Hash: ethcommon.Hash(hb), Status: 1, Note: "core", Logs: []*evmsim.LogSpec{mkLog("core", 1)}}
+					if md == "bsc" {
+						blkA = s.Include(txA, s.Head+1)
+						s.AdvanceHead(blkA.Number)
+					} else {
+						blkA = s.Include(txA, s.Head+1)
+					}
+				})
+				txs = append(txs, txA)
+				exp[txA.Hash] = &expectation{tx: txA, log: txA.Logs[0], block: blkA, note: "A: becomes final just before B's log arrives"}
+				h.Quiesce(2, 20*time.Second)
+				sim.Mutate("finalize-A", func(s *evmsim.Sim) {
+					if md == "bsc" {
+						s.AdvanceHead(blkA.Number + 15)
+					} else {
+						s.AdvanceHead(blkA.Number)
+					}
+				})
+				time.Sleep(time.Duration(1+rng.Intn(6)) * time.Millisecond)
+				sim.Mutate("mine-B", func(s *evmsim.Sim) {
+					var hb [32]byte
+					rng.Read(hb[:])
+					txB = &evmsim.Tx{Hash: ethcommon.Hash(hb), Status: 1, Note: "core", Logs: []*evmsim.LogSpec{mkLog("core", 1)}}
+					blkB = s.Include(txB, s.Head+1)
+					if md == "bsc" {
+						s.AdvanceHead(blkB.Number)
+					}
+				})
+				txs = append(txs, txB)
+				exp[txB.Hash] = &expectation{tx: txB, log: txB.Logs[0], block: blkB, note: "B: its log arrives while the head loop is going idle after A"}
+				vlib.CCount("txs_core", 2)
+				vlib.CCount("log_arriving_while_head_loop_goes_idle", 1)
+				h.Quiesce(3, 20*time.Second)
+				// bounded progress on a quiet chain: B reaches its depth and nothing else happens - it must come out
+				sim.Mutate("finalize-B", func(s *evmsim.Sim) {
+					if md == "bsc" {
+						s.AdvanceHead(blkB.Number + 15)
+					} else {
+						s.AdvanceHead(blkB.Number)
+					}
+				})
+				got := false
+				for i := 0; i < 400 && !got; i++ { // up to 4 s; the poll interval is 2 ms
+					time.Sleep(10 * time.Millisecond)
+					for _, a := range h.ArrivalsCopy() {
+						if a.Msg.TxHash == txB.Hash {
+							got = true
+						}
+					}
+				}
+				if !got {
+					vlib.CFinding("pending-message-not-forwarded-on-a-quiet-chain-although-depth-reached", map[string]interface{}{"script": desc, "trace": trace, "tx": fmt.Sprintf("%x", txB.Hash[:4]), "block": blkB.Number,
+						"pending_entries": h.W.VerifPendingCount(), "note": "its log arrived while the head loop was going idle after the previous message; no further event for 4 s"})
+					break
+				}
+			}
+			h.SetLogDelay(0, 0, "")
+			tr("3x: A becomes final, a few ms later B is mined (the watcher pauses up to 6 ms at its 'processed new header' log line)")
 		case x == 9: // mined but not yet at the depth the watcher reads (e.g. not finalized): re-observed right away
 			ahead := uint64(1 + rng.Intn(5))
 			cl := cls[rng.Intn(len(cls))]
